@@ -131,7 +131,12 @@ Definition will_close (r : response) : bool :=
       (R: it drops the connection and leaves the symbol for the connection attempt that follows);
     - open socket whose peer has gone: the bytes are lost (when the kernel reports EPIPE /
       ECONNRESET at this point instead of at the read that follows, single_request and the retry
-      loop treat it exactly like the RemoteDisconnected of [h_getresponse]; the model takes the latter). *)
+      loop treat it exactly like the RemoteDisconnected of [h_getresponse]; the model takes the latter).
+      The only place where that choice could be seen is a gone peer together with a response
+      still attached (the model answers ResponseNotReady; an EPIPE at send time would be retried):
+      it needs a 204/304 status line followed by a length-less body and a close
+      ([FStatusNoLenClose 204]), which is outside the property's alphabet ("5xx without length")
+      and is not generated; the theorems hold for the model's choice. *)
 Definition h_request (c : hconn) (script : list fault) (tok : val) : hconn * list fault * res unit :=
   match h_sock c with
   | None =>
